@@ -91,7 +91,12 @@ func CloneTo[T any](maybeSelf MaybeDef[T], dest T) MaybeDef[T] {
 		y := reflect.New(starX.Type())
 		starY := y.Elem()
 		starY.Set(starX)
-		reflect.ValueOf(dest).Elem().Set(y.Elem())
+		destVal := reflect.ValueOf(dest)
+		if destVal.Kind() != reflect.Ptr || destVal.IsNil() {
+			// No destination given(e.g. Clone()): the freshly allocated copy is the destination
+			return JustGenerics(y.Interface().(T))
+		}
+		destVal.Elem().Set(y.Elem())
 		return JustGenerics(dest)
 	}
 	dest = x.Interface().(T)
